@@ -229,6 +229,7 @@ class Translator:
         self.check_raw_write_sites()
         self.receiver_discipline()
         self.compute_deps()
+        self.cache_mutations()
         self.transformer_keys()
 
     # -- foreign code that receives the circuit as an argument ---------------------------
@@ -1025,6 +1026,140 @@ class Translator:
         ks, d = self.reach(q)
         return ks, d
 
+    # -- a query must not modify, in place, the value it got from a memoised attribute --------
+    MUTATING_METHODS = {'remove', 'append', 'extend', 'pop', 'sort', 'clear', 'insert', 'update', 'add', 'discard',
+                        'popitem', 'setdefault', 'reverse', 'move_to_end', 'appendleft', 'popleft', '__setitem__', '__delitem__'}
+    ALIASING_METHODS = {'values', 'items', 'keys', 'get', '__getitem__'}
+    COPYING_CALLS = {'list', 'sorted', 'dict', 'set', 'tuple', 'frozenset', 'copy', 'deepcopy', 'str', 'repr', 'len', 'sum',
+                     'min', 'max', 'any', 'all', 'enumerate_copy', 'OrderedDict'}
+
+    def cache_mutations(self):
+        """sites where a value reached from a memoised attribute of the circuit (directly, through
+        a function that returns such a value, by subscripting / iterating / .values()/.items()/.get())
+        is modified in place: v.remove(..), v.append(..), del v[..], v[..] = .., v.attr = ..  (copies made
+        with list()/sorted()/dict()/.copy()/slices/comprehensions are clean).  Every function of the MRO,
+        every call-back class method and every foreign function that receives the circuit is scanned."""
+        cached = set()
+        for k, m in self.memo.items():
+            cached.add(self.funcs[m['owner']].name)
+        units = []      # (FuncInfo, receiver test)
+        for q in self.order:
+            fi = self.funcs[q]
+            if fi is self.invalidate or fi.kind == 'static':
+                continue
+            units.append((fi, lambda n: is_self(n)))
+        for q, fi in self.cb.funcs.items():
+            if fi.kind != 'static':
+                units.append((fi, lambda n: isinstance(n, ast.Attribute) and n.attr == 'cct' and is_self(n.value)))
+        for q in self.ext_order:
+            fi = self.ext[q]
+            units.append((fi, (lambda pn: (lambda n: isinstance(n, ast.Name) and n.id == pn))(fi.param)))
+
+        def analyse(fi, is_recv, cached):
+            tainted = {}
+
+            def src(e):
+                """memo key name the expression aliases, or None"""
+                if isinstance(e, ast.Name):
+                    return tainted.get(e.id)
+                if isinstance(e, ast.Attribute):
+                    if is_recv(e.value) and e.attr in cached:
+                        return e.attr
+                    return src(e.value)
+                if isinstance(e, ast.Subscript):
+                    if isinstance(e.slice, ast.Slice):
+                        return None          # a slice is a copy
+                    return src(e.value)
+                if isinstance(e, ast.Call):
+                    f = e.func
+                    if isinstance(f, ast.Attribute):
+                        if is_recv(f.value) and f.attr in cached:
+                            return f.attr
+                        if f.attr in self.ALIASING_METHODS:
+                            return src(f.value)
+                    return None
+                if isinstance(e, ast.IfExp):
+                    return src(e.body) or src(e.orelse)
+                if isinstance(e, ast.BoolOp):
+                    for v in e.values:
+                        if src(v):
+                            return src(v)
+                    return None
+                if isinstance(e, ast.Starred):
+                    return src(e.value)
+                return None
+
+            def bind(t, key):
+                for x in ast.walk(t):
+                    if isinstance(x, ast.Name) and key and x.id not in tainted:
+                        tainted[x.id] = key
+            for _ in range(4):
+                for n in ast.walk(fi.node):
+                    if isinstance(n, ast.Assign):
+                        k = src(n.value)
+                        if k:
+                            for t in n.targets:
+                                if isinstance(t, (ast.Name, ast.Tuple, ast.List)):
+                                    bind(t, k)
+                    elif isinstance(n, (ast.For, ast.comprehension)):
+                        k = src(n.iter)
+                        if k:
+                            bind(n.target, k)
+                    elif isinstance(n, ast.withitem) and n.optional_vars is not None:
+                        k = src(n.context_expr)
+                        if k:
+                            bind(n.optional_vars, k)
+            sites = []
+            for n in ast.walk(fi.node):
+                if isinstance(n, ast.Call) and isinstance(n.func, ast.Attribute) and n.func.attr in self.MUTATING_METHODS:
+                    k = src(n.func.value)
+                    if k:
+                        sites.append((n.lineno, k, '.%s()' % n.func.attr))
+                elif isinstance(n, (ast.Assign, ast.AugAssign, ast.AnnAssign, ast.Delete)):
+                    tg = n.targets if isinstance(n, (ast.Assign, ast.Delete)) else [n.target]
+                    for t in tg:
+                        for x in ([t] if not isinstance(t, (ast.Tuple, ast.List)) else t.elts):
+                            if isinstance(x, ast.Subscript):
+                                k = src(x.value)
+                                if k:
+                                    sites.append((n.lineno, k, 'item %s' % ('deletion' if isinstance(n, ast.Delete) else 'assignment')))
+                            elif isinstance(x, ast.Attribute) and not is_recv(x.value):
+                                k = src(x.value)
+                                if k:
+                                    sites.append((n.lineno, k, 'attribute %s' % ('deletion' if isinstance(n, ast.Delete) else 'assignment')))
+            rets = set()
+            for n in ast.walk(fi.node):
+                if isinstance(n, ast.Return) and n.value is not None:
+                    k = src(n.value)
+                    if k:
+                        rets.add(k)
+            return sites, rets
+        # functions of the MRO that hand out (an alias of) a memoised value count as memoised sources too
+        alias_of = {}
+        changed = True
+        while changed:
+            changed = False
+            for fi, rt in units:
+                if fi.qname not in self.funcs or fi.name in cached or self.resolve(fi.name) is not fi:
+                    continue
+                if self.key_of_func(fi) is not None:
+                    continue
+                _, rets = analyse(fi, rt, cached)
+                if rets:
+                    cached.add(fi.name)
+                    alias_of[fi.name] = sorted(rets)[0]
+                    changed = True
+        out = []
+        for fi, rt in units:
+            sites, _ = analyse(fi, rt, cached)
+            for (line, k, how) in sites:
+                root = k
+                while root in alias_of:
+                    root = alias_of[root]
+                out.append(dict(func=fi.qname, file=os.path.basename(fi.path), line=line, via=k, key=root, how=how))
+        self.cache_mutation_sites = out
+        self.cached_sources = sorted(cached)
+
     # -- transformer result caches ----------------------------------------------------------
     def transformer_keys(self):
         out = []
@@ -1454,6 +1589,8 @@ if __name__ == '__main__':
     print('ctor', T.ctor_ok)
     print('raw sites', T.raw_sites)
     print('raw sites bad', T.raw_sites_bad)
+    print('cache mutation sites', T.cache_mutation_sites)
+    print('cached sources', T.cached_sources)
     print('local sites', [s for s in T.local_sites])
     print('callbacks', T.cb_order)
     for t in T.transformers:
